@@ -120,6 +120,16 @@ def check_case(case, rec=None, compiled=None):
         if not use_labels:
             stats["label_misfit"] += len(cmds)
         flash_len = len(nop.flash)
+        lut_content = {}
+        # content of every table by the equivalence id of its SHRAM tensor (from all table DMAs of this stream, also later ones: an operation whose first stripe re-uses a
+        # resident table and whose later stripes copy it again has its DMAs *after* the first use)
+        lut_content_all = {}
+        if use_labels:
+            for k2, c2 in enumerate(cmds):
+                if c2.kind == "dma":
+                    f2 = csdec.fields(c2)
+                    if f2["dst_region"] & 0x100 and f2["src_region"] == 0 and labels[k2].get("out_eq"):
+                        lut_content_all[labels[k2]["out_eq"]] = hash(bytes(nop.flash[f2["src"]: f2["src"] + f2["length"]]))
         for k, c in enumerate(cmds):
             f = csdec.fields(c)
             lab = labels[k] if use_labels else {}
@@ -180,7 +190,12 @@ def check_case(case, rec=None, compiled=None):
                     T.writer[dr][f["dst"] + np.nonzero(undefined_src)[0]] = NONE
                     if rec is not None:
                         rec.cls("dma-moves-undefined-padding")
-                infos[me] = infos[me] + (lab.get("out_tensor"), lab.get("box"), lab.get("out_eq"))
+                # table identity is decided by content: the labels carry the tensor's equivalence id as it is at the END of the compilation, and a table that is found
+                # resident for one stripe and placed again for the next gets a new id in between
+                content = hash(bytes(nop.flash[f["src"]: f["src"] + f["length"]])) if sr == 0 and dr == csdec.SHRAM_REGION else None
+                infos[me] = infos[me] + (lab.get("out_tensor"), lab.get("box"), lab.get("out_eq"), content)
+                if content is not None and lab.get("out_eq"):
+                    lut_content[lab["out_eq"]] = content
                 if dr == csdec.SHRAM_REGION:
                     feats.add("lut")
                 continue
@@ -276,6 +291,8 @@ def check_case(case, rec=None, compiled=None):
                 if use_labels and lab.get("lut_eq"):
                     for w_ in w_ops:
                         inf = infos[w_]
+                        if len(inf) >= 8 and inf[7] is not None and inf[7] == lut_content_all.get(lab["lut_eq"]):
+                            continue  # another copy of the very same table (bytes of the constants tensor): a legitimate re-use
                         if len(inf) >= 7 and inf[6] is not None and inf[6] != lab["lut_eq"]:
                             raise Violation("C03/stale-lut", "%s looks up table %s but the slot holds the table copied by %s" % (where(), lab["lut_eq"], inf[:5]), case, tags_c)
                 feats.add("lut")
